@@ -216,7 +216,7 @@ def _check_positions(text, mode="lossless"):
 def op_search(task):
     rnd = random.Random(task.get("seed", 0))
     alphabet = task.get("alphabet", ["a", "1", " ", "\t", "\n", "\\\n", "??/\n", "\"", "'", "/*", "*/", "//", "??=", "<%",
-                                     ";", "+", ".", "=", "\\"])
+                                     ";", "+", ".", "=", "\\", "_", "if"])
     excs = {}
     maxlen = task.get("maxlen", 4)
     cases, viol, skipped = 0, [], 0
@@ -244,6 +244,11 @@ def op_search(task):
                 for pre in ("", "\t", "x = "):
                     structured.append(pre + head + sp + tail + after)
                     structured.append(pre + head + sp + sp + tail + after)
+    for inner in ("\t", "a\t", "\tb", "ab\tc", "\t\t"):
+        for head, tail in (('"', '"'), ("'", "'"), ("/*", "*/"), ("/* x\n", "*/"), ("//", "\n")):
+            for after in ("m", " m", "\tm", ";"):
+                for pre in ("", "x ", "\t"):
+                    structured.append(pre + head + inner + tail + after)
     for text in structured:
         if text in seen:
             continue
@@ -267,7 +272,8 @@ def op_search(task):
             "total_violations": len(viol), "exceptions": excs,
             "bound": f"all strings of 1..{maxlen} lexemes over {alphabet!r}, plus {task.get('random', 300)} seeded "
                      "strings of 5..14 lexemes, plus a structured family (splice in either spelling inside every "
-                     "multi-character token kind x 4 continuations x 3 prefixes)"}
+                     "multi-character token kind x 4 continuations x 3 prefixes; tabs at 5 places inside strings, character "
+                     "literals, block and line comments x 4 continuations x 3 prefixes)"}
 
 
 def op_one(task):
